@@ -64,6 +64,9 @@ def cases(tier, seed):
     for sin, sout, rank, batch in [([2], [2], [1, 1], []), ([2, 2], [1, 2], [1, 2, 1], [2]), ([2, 1], [2, 2], [1, 2, 1], [])] + ([([2, 2, 2], [1, 2, 1], [1, 2, 2, 1], [2, 1])] if th else []):
         cs.append({'scen': 'ad_layer', 's': {'size_in': sin, 'size_out': sout, 'rank': rank, 'batch': batch}})
         cs.append({'scen': 'ad_layer', 's': {'size_in': sin, 'size_out': sout, 'rank': rank, 'batch': batch, 'eval': True}})
+        d_ = len(sin)
+        for fr in ([-1], list(range(d_)), [0]):          # bias frozen; all cores frozen (bias-only fine tuning); first core frozen
+            cs.append({'scen': 'ad_layer', 's': {'size_in': sin, 'size_out': sout, 'rank': rank, 'batch': batch, 'frozen': fr}})
     return cs
 
 
